@@ -16,5 +16,5 @@ def run(ctx):
     ctx.nontrivial = lambda r: (("v" in r["in"] and (r["in"]["v"]["d"] > 0 or r["in"]["v"]["r"] != [1, 1] or r["in"].get("p", 0) != 0))
                                 or "a" in r["in"] or ("u" in r["in"] and (r["in"]["u"][1] != 1 or r["in"]["u"][0] not in (1, 2, 4, 8, 16, 32))))
     ctx.assumptions.append("float results are compared in integer ticks (1/215040 whole note) with a tolerance of 1e-9 whole note; non-termination is decided by a 2 s alarm")
-    recs = ctx.execute("c09", cases)
+    recs = ctx.execute("c09", cases, orders=2)
     ctx.validate("Trace_C09", recs, driver="c09")
